@@ -843,6 +843,7 @@ fn range_key(a: i64, b: i64) -> i64 {
 /// ghost: the last updating accessor that was called: (which, self, a, b, optional?)
 static mut LAST_UPD: (u8, i64, i64, i64, bool) = (0, 0, 0, 0, false);
 
+
 /// the two children of a RecVal, with their keys 1 and 2
 struct TwoKeys {
     t: i64,
@@ -1127,6 +1128,9 @@ impl FromIterator<IntVal> for IntVal {
 impl core::ops::Add for IntVal {
     type Output = ValR<Self>;
     fn add(self, r: Self) -> ValR<Self> {
+        // ghost: the operands in the order written (`+` need not commute for other value types:
+        // strings, arrays)
+        unsafe { LAST_ADD = Some((self.0, r.0)) };
         self.0.checked_add(r.0).map(IntVal).ok_or_else(|| Error::new(IntVal(-1)))
     }
 }
@@ -1186,6 +1190,7 @@ impl ValT for IntVal {
     }
 }
 
+static mut LAST_ADD: Option<(i64, i64)> = None;
 /// The manual's definition:
 /// `def range($from; $to; $by): $from | if $by > 0 then while(. < $to; . + $by)
 ///  elif $by < 0 then while(. > $to; . + $by) else while(. != $to; . + $by) end;`
@@ -1193,6 +1198,7 @@ impl ValT for IntVal {
 /// for ever (cut after `cut` outputs and required to go on); an overflowing `+` is delivered once
 /// as the error and ends the stream.
 fn range_case(from: i64, to: i64, by: i64, cut: usize) {
+    unsafe { LAST_ADD = None };
     let mut it = crate::funs::verif_range(IntVal(from), IntVal(to), IntVal(by));
     let mut x = from as i128;
     let mut k = 0;
@@ -1209,6 +1215,8 @@ fn range_case(from: i64, to: i64, by: i64, cut: usize) {
             _ => assert!(false),
         }
         core::mem::forget(got);
+        // the next element is computed as `. + $by`, operands in that order
+        assert!(unsafe { LAST_ADD } == Some((x as i64, by)));
         x += by as i128;
         if x > i64::MAX as i128 || x < i64::MIN as i128 {
             let e = it.next();
@@ -1259,3 +1267,7 @@ fn c11_range_steps() {
 // the error, then the end of the stream - exceeded 400 s: constructing, cloning and dropping the
 // `Exn` error value is what symbolic execution cannot afford.  `range_case` states it; it is not
 // registered.)
+
+// (A two-part obligation - `Path::update` on `.[a]?.[b]` / `.[a].[b]?` addresses each part with
+// its own `?` mark, in order, with a container whose `map_index` applies the update function to
+// the child - was built and exceeded 400 s for both mark combinations; not registered.)
